@@ -8,6 +8,7 @@
   the object holds in `self.H`.
 -/
 import Proofs.Lemmas.EndToEnd
+import Proofs.Lemmas.StreamingAlgs
 namespace Proofs.C01
 open Model Model.Gen.Hashes Proofs.Lemmas Proofs.Lemmas.BitsBitVec Proofs.Lemmas.Parse Proofs.Lemmas.Compose
   Proofs.Lemmas.EndToEnd
@@ -199,6 +200,22 @@ theorem digest_length (alg : Model.Alg) (M : List Spec.Byte) (L : Option Nat) (h
 theorem bitlen_too_large (alg : Model.Alg) (M : List Nat) (L : Nat) (hL : L > 8 * M.length) :
     ∃ e, Model.hash alg M (some L) = .error e :=
   too_large alg M L hL
+
+/-- **final_update_refines** (bit counters of any size): a final `update(M,bitlen,padding=True)` on an object that holds a
+    standard chaining value `s` and whose counter says that `st.bitcnt` bits (whole blocks, any number — in particular
+    more than 2^32 or 2^64) were absorbed returns the standard's digest continued from `s`: the tail padded with the
+    *total* length `st.bitcnt + L` in the length field.  (`hash_refines` is the case s = IV, counter 0.) -/
+theorem final_update_refines (alg : Model.Alg) :
+    ∃ (c : HashCore) (σ : Type) (h : Spec.MDHash σ) (emb : σ → List Bits),
+      alg.new = .ok c ∧ Spec.hash (toSpec alg) = h.hash ∧ c.iv = emb h.init ∧
+      ∀ (s : σ) (st : PadState), st.padflag = false → st.bitcnt % (8 * alg.blocklen) = 0 →
+        ∀ (M : List Spec.Byte) (kw : Option Nat), (∀ l, kw = some l → l ≤ 8 * M.length) →
+          (c.update ⟨emb s, st⟩ (toNatBytes M) kw true).2
+            = .ok (toNatBytes (h.hashFrom s st.bitcnt ((Spec.bytesToBits M).take (kw.getD (8 * M.length))))) := by
+  obtain ⟨c, hc, σ, h, emb, w, B, ll, bigend, R, F, hs⟩ := StreamingAlgs.alg_cases alg
+  refine ⟨c, σ, h, emb, hc, hs, R.iv, ?_⟩
+  intro s st hpf hdone M kw hkw
+  exact update_final R s st st.bitcnt M kw _ (Streaming.padOk_of_framing F st hpf (by rw [F.hB]; exact hdone) M kw hkw)
 
 /-! non-vacuity: the hypotheses are inhabited by non-trivial instances, and the specifications are not degenerate
     (FIPS 180-4 / RFC 1321 test vector "abc", evaluated in the kernel) -/
